@@ -1,0 +1,25 @@
+//go:build verif
+
+package httpp
+
+// Machine-checked contracts for /verif (govc). Comment-only: compiled only with -tags verif, adds no code.
+
+// C05: an Origin is echoed only if some allowed entry has the same scheme and either the same host and
+// effective port, or a wildcard host whose pattern - every character quoted except the wildcards - matches
+// the origin's host:port; '*' is answered only when '*' is configured; otherwise no header.
+
+//@ func isOriginAllowed
+//@   property C05
+//@   modifies nothing
+//@   def oScheme() string = urlScheme(origin)
+//@   def oHost() string = normHost(urlScheme(origin), urlHost(origin))
+//@   def aHost(k int) string = normHost(urlScheme(allowOrigins[k]), urlHost(allowOrigins[k]))
+//@   def allows(k int) bool = urlOK(allowOrigins[k]) && urlScheme(allowOrigins[k]) == oScheme() && ((aHost(k) == oHost() && portOf(aHost(k)) == portOf(oHost())) || (strContains(aHost(k), "*") && reFound("^" + wildPattern(aHost(k)) + "$", oHost())))
+//@   def originOK() bool = origin != "" && urlOK(origin) && urlScheme(origin) != ""
+//@   loop 1 invariant 0 <= _i && _i <= len(allowOrigins) && forall(k, 0, _i, !allows(k))
+//@   loop 1 invariant originURL != nil && originURL.Scheme == oScheme() && originURL.Host == oHost()
+//@   ensures [empty-list-allows-nothing] len(allowOrigins) == 0 ==> !result1
+//@   ensures [no-header-when-not-allowed] !result1 ==> result0 == ""
+//@   ensures [echo-or-star] result1 ==> (result0 == origin && originOK() && exists(k, 0, len(allowOrigins), allows(k))) || (result0 == "*" && exists(k, 0, len(allowOrigins), allowOrigins[k] == "*"))
+//@   ensures [allowed-origin-is-echoed] originOK() && exists(k, 0, len(allowOrigins), allows(k)) ==> result1 && result0 == origin
+//@   ensures [star-when-configured] len(allowOrigins) != 0 && (origin == "" || (originOK() && !exists(k, 0, len(allowOrigins), allows(k)))) && exists(k, 0, len(allowOrigins), allowOrigins[k] == "*") ==> result1 && result0 == "*"
